@@ -1,6 +1,6 @@
 CONSTANTS
   TPS = 4
-  MaxExh = 86400
+  MaxExh = 3600
   Win = 3
   Emit = FALSE
 INIT Init
